@@ -67,7 +67,7 @@ void h_verify_gates(void) {
     int spare_ok = 1;
     __CPROVER_assume(plen <= MAXP && eclen <= MAXE && gk < 128 && gb < 32);
     __CPROVER_assume(ge_ok(&commit) && !commit.infinity && ge_ok(&genp) && !genp.infinity);
-    INPUT_BUF(pf, proof, plen, 80);
+    INPUT_BUF(pf, proof, plen, 32);
     INPUT_BUF(ex, extra, eclen, 8);
     hc.fn_sha256_compression = secp256k1_sha256_transform;
     rp_reset(gk, gb); g_we = 0; g_wpos = 0; g_sq_watch = 0;
@@ -76,7 +76,7 @@ void h_verify_gates(void) {
     if (L.ok && L.total <= plen && gk < L.rings - 1) g_fl_wp = proof + L.digit_off + 32 * gk;
     if (L.ok && L.total <= plen && gk < L.npub) g_sb_wp = proof + L.s_off + 32 * gk;
     ret = secp256k1_rangeproof_verify_impl(&hc, NULL, NULL, NULL, NULL, NULL, NULL, &minv, &maxv, &commit, proof, plen, use_extra ? extra : NULL, use_extra ? eclen : 0, &genp);
-    WITNESS_BUF(pf, proof, plen, 80);
+    WITNESS_BUF(pf, proof, plen, 32);
     __CPROVER_assert(ret == 0 || ret == 1, "C10 verify gates: returns 0 or 1");
     __CPROVER_assert(g_bv_n <= 1 && g_pe_n <= 1 && g_ps_n <= 1, "C10 verify gates: at most one ring verification, one expansion, one min*H");
     if (g_bv_n == 1) __CPROVER_assert(ret == g_bv_v, "C10 verify gates: once the ring equation is consulted the result is its verdict");
@@ -134,12 +134,12 @@ void h_verify_binding(void) {
     uint64_t base;
     __CPROVER_assume(plen <= MAXP && eclen <= MAXE && gb < 32 && (sqw == 0 || sqw == 1));
     __CPROVER_assume(ge_ok(&commit) && !commit.infinity && ge_ok(&genp) && !genp.infinity);
-    INPUT_BUF(pf, proof, plen, 80);
+    INPUT_BUF(pf, proof, plen, 32);
     INPUT_BUF(ex, extra, eclen, 8);
     hc.fn_sha256_compression = secp256k1_sha256_transform;
     rp_reset(0, gb); g_we = 0; g_wpos = wpos; g_sq_watch = sqw;
     ret = secp256k1_rangeproof_verify_impl(&hc, NULL, NULL, NULL, NULL, NULL, NULL, &minv, &maxv, &commit, proof, plen, use_extra ? extra : NULL, use_extra ? eclen : 0, &genp);
-    WITNESS_BUF(pf, proof, plen, 80);
+    WITNESS_BUF(pf, proof, plen, 32);
     L = rp_spec(proof, plen);
     __CPROVER_assert(g_fin_n <= 1, "C10 verify binding: at most one hash computation outside the ring equation");
     if (ret == 1) __CPROVER_assert(g_fin_n == 1 && g_bv_n == 1, "C10 verify binding: acceptance implies the binding hash was finalized and handed on");
